@@ -125,6 +125,27 @@ fn probe_one(m: &HistModel, st: &St, i: usize, proto: u16, id: u16, other_id: u1
         }
     }
     if allowed {
+        // the same unknown-id data offered again (and again after data for a known id): still no records
+        let mut p = m.rebuild(i, &st.enc[i]).unwrap();
+        let alone = mk(&[("D", id)]);
+        let mut seq: Vec<Vec<u8>> = vec![];
+        if other_known {
+            seq.push(mk(&[("D", other_id)]));
+        }
+        seq.extend([alone.clone(), alone.clone(), alone.clone()]);
+        if other_known {
+            seq.push(mk(&[("D", other_id)]));
+            seq.push(alone.clone());
+        }
+        for (k, b) in seq.iter().enumerate() {
+            let res = p.parse_bytes(b);
+            if has_records_for(&res, proto, id) {
+                out.push(issue(format!("{}/records-for-unknown-template/repeated-offer", pn), format!("instance {}: call {} of the sequence {:?} reports records for the unknown id {}", i, k, seq.iter().map(|x| hex(x)).collect::<Vec<_>>(), id)));
+                break;
+            }
+        }
+    }
+    if allowed {
         // once the template is received the same data bytes decode normally (reference decode), however the
         // template arrives: alone, after a new template for another id in the same flowset/set, or (V9) after a
         // byte-identical copy of a template the parser already holds
